@@ -307,7 +307,9 @@ class KittyImage(GraphicsImage):
             # terminals should support it and most terminals treat queries as FIFO
             response = query_terminal(
                 ctlseqs.KITTY_SUPPORT_QUERY_b + ctlseqs.DA1_b,
-                lambda s: not s.endswith(b"c"),
+                # The response to the graphics query might contain a "c" (e.g. in an
+                # error message); only the "c" ending the response to DA1 counts
+                lambda s: not (s.endswith(b"c") and ctlseqs.CSI_b in s),
             )
 
             # Not supported if it doesn't respond to either query
